@@ -41,6 +41,22 @@ def r10a(ctx):
     for rm in rms:
         arg = a.arg(rm, 0)
         vec = a.root_call(arg)
+        if vec is not None and sg(vec[1]).split('::')[-1] == 'collect' and len(a.calls(WOUT)) == 1:
+            # the removal list is built in one go (`group.iter().map(|s| (s.shard_hash, s.path..)).collect()`): it is
+            # complete where it is built, so building it must follow the successful write of the round
+            lpo = c05.loop_of(a, w)
+            okc = bool(wok) and lpo is not None and c05.in_iteration_guarded(a, lpo, vec[3], wok)
+            ctx.check(okc, 'R10a', fn, 'push<write', a.loc(vec[3]), 'the removal list is collected only after the merged shard was written successfully',
+                      'the inputs are listed for deletion before (or without) the merged shard having been written: a stop in between loses their records')
+            te, fe = bool_edges(a, lambda e: e[0] == 'call' and sg(e[1]).endswith('HashSet::contains') and same_elem(a, e[2][1], arg))
+            ctx.check(bool(fe) and a.cfg.must_pass(rm, via_edges=fe), 'R10a', fn, 'contains-guard', a.loc(rm), 'the deletion is dominated by the not-contained edge of finished_shard_hashes.contains(its hash)',
+                      'a shard that is also a finished (returned) shard can be deleted')
+            ins = [i for i in a.calls('std::collections::hash::set::HashSet::insert') if a.rooted_at(a.arg(i, 1), w)]
+            ctx.check(bool(ins) and c05.in_iteration_guarded(a, lpo, rm, [e_ for i in ins for e_ in a.cfg.out_edges(i)]), 'R10a', fn, 'finished.insert', a.loc(ins[0]) if ins else '-',
+                      'the merged shard\'s hash enters finished_shard_hashes before its inputs are deleted')
+            okp, d = propagation(a, rm)
+            ctx.check(okp, 'R10a', fn, 'remove?', a.loc(rm), 'remove_file errors propagate: ' + d)
+            continue
         if not (vec is not None and sg(vec[1]).endswith('Vec::new')):
             # direct form: no intermediate list — the deletion loop walks the merged inputs itself.  Then the deletion
             # itself must come after the successful write of this round, after the merged hash entered the finished
